@@ -12,6 +12,9 @@ def items(ctx):
             "chan_info": s.get("channel_info"), "state": s.get("channel_state"), "reply": s.get("reply_args")}
 
 
+from ..prims import is_rmw
+
+
 def ack_kind(data):
     """'success' / 'error' / None for the acknowledgement bytes of a response"""
     if data is None:
@@ -25,8 +28,8 @@ def ack_kind(data):
 def state_delta(e):
     """(outstanding NF, total_sent NF, problem) of a CHANNEL_STATE write relative to the stored entry.
     The stored entry may be absent for increases (unwrap_or_default) but must be present for reductions."""
-    if e.op != "update":
-        return None, None, "channel state written with %s, not an atomic update" % e.op
+    if not is_rmw(e) or e.op == "remove":
+        return None, None, "channel state written with %s, not a read-modify-write of the stored entry" % e.op
     base, fields = update_base(e.value)
     if base == ("vfield", e.old, "Some", "0"):
         kind = "present"
@@ -51,6 +54,28 @@ def state_delta(e):
     if extra:
         return None, None, "unexpected fields changed: %s" % sorted(extra)
     return out["outstanding"], out["total_sent"], kind
+
+
+def denom_kind(p, D):
+    """how path p classified the denom term D: ('native', None), ('cw20', token term) or (None, None).
+    Spellings: D.starts_with("cw20:") with the token D.get(5..).unwrap(); D.strip_prefix("cw20:") -> Some(token) / None"""
+    for c in p.conds:
+        t = c[0]
+        if t[0] == "call" and t[1].endswith("starts_with") and t[2][0] == D and t[2][1] == ("str", "cw20:") and isinstance(c[1], bool):
+            if c[1] is False:
+                return "native", None
+            return "cw20", "get"
+        if t[0] == "call" and t[1].endswith("strip_prefix") and t[2][0] == D and t[2][1] == ("str", "cw20:") and c[1] in ("Some", "None"):
+            if c[1] == "None":
+                return "native", None
+            return "cw20", ("vfield", t, "Some", "0")
+    return None, None
+
+
+def token_matches(tok, how, D):
+    if how == "get":
+        return tok[0] == "vfield" and tok[1][0] == "call" and tok[1][1].endswith("::get") and tok[1][2][0] == D
+    return tok == how
 
 
 def payout_parts(m):
